@@ -335,11 +335,27 @@ Module MethodNames.
   Import String.
   Definition required_methods : list string :=
     ["shard.get"; "shard.set"; "shard.del"; "shard.len"; "shard.flush"; "shard.rangeDo"]%string.
+  Definition required_callers : list string :=
+    ["Map.Get"; "Map.Set"; "Map.Del"; "Map.RangeDo"; "Map.Len"; "Map.Flush"]%string.
 End MethodNames.
 Definition required_methods := MethodNames.required_methods.
+Definition required_callers := MethodNames.required_callers.
 
 Definition check_locks (t : list lock_row) : bool :=
   forallb row_ok t && forallb (has_method t) required_methods.
+
+(** The functions above the shards (Map.Set -> shard.set, ...): the cache model treats each
+    of them as ONE atomic step per shard, so each must take a shard's lock at most once on any
+    path (no "check under one acquisition, act under another") and never touch the protected
+    map itself. *)
+Definition caller_row := (String.string * N * bool)%type.
+Definition caller_ok (r : caller_row) : bool :=
+  let '(_, acq, direct) := r in (acq <=? 1) && negb direct.
+Definition check_callers (c : list caller_row) : bool :=
+  forallb caller_ok c
+  && forallb (fun n => existsb (fun r => String.eqb (fst (fst r)) n) c) required_callers.
+Definition check_lock_facts (t : list lock_row) (c : list caller_row) : bool :=
+  check_locks t && check_callers c.
 
 (** Semantics of the sections: a thread is inside at most one method of one shard; [Enter]
     takes the shard's RWMutex in the row's mode (writers exclusive, readers shared, mode 0
@@ -373,3 +389,74 @@ Fixpoint lk_run (s : lk_state) (ls : list lk_label) : option lk_state :=
 (** two methods conflict when one writes the map and the other touches it *)
 Definition conflict (a b : lock_row) : bool :=
   (lr_writes a && (lr_writes b || lr_reads b)) || (lr_writes b && (lr_writes a || lr_reads a)).
+
+(** * pkg/lru + pkg/concurrent_lru: a sharded map with recency and a per-shard capacity *)
+(** One LRU: association list, OLDEST FIRST (list.List front = oldest). *)
+Definition lru := list (key * val).
+Fixpoint lfind (k : key) (l : lru) : option val :=
+  match l with [] => None | (k', v) :: t => if k' =? k then Some v else lfind k t end.
+Definition lremove (k : key) (l : lru) : lru := filter (fun kx => negb (fst kx =? k)) l.
+
+Inductive lop :=
+| LAdd (k : key) (v : val) | LGet (k : key) | LDel (k : key)
+| LClean (m r : N)            (* Clean(f) with f(key, v) = ((key + v) mod m = r) *)
+| LLen | LFlush.
+(** result and the (key, value) pairs handed to onEvict, in order *)
+Inductive lres := LRGet (r : option val) | LRUnit | LRNum (n : N).
+
+Definition clean_pred (m r : N) (kx : key * val) : bool := (fst kx + snd kx) mod m =? r.
+
+(** LRU.Add: update value and move to the back; else pop the oldest
+    "o := Len - maxSize + 1" times (onEvict each) and push back *)
+Definition ladd (max : N) (k : key) (v : val) (l : lru) : lru * list (key * val) :=
+  match lfind k l with
+  | Some _ => (lremove k l ++ [(k, v)], [])
+  | None =>
+    let o := (S (length l) - N.to_nat max)%nat in
+    (skipn o l ++ [(k, v)], firstn o l)
+  end.
+(** LRU.Get: move to the back *)
+Definition lget (k : key) (l : lru) : lru * option val :=
+  match lfind k l with
+  | Some v => (lremove k l ++ [(k, v)], Some v)
+  | None => (l, None)
+  end.
+(** LRU.Del: remove, onEvict *)
+Definition ldel (k : key) (l : lru) : lru * list (key * val) :=
+  match lfind k l with Some v => (lremove k l, [(k, v)]) | None => (l, []) end.
+(** LRU.Clean: oldest to newest, remove where f says so, onEvict each *)
+Definition lclean (m r : N) (l : lru) : lru * list (key * val) :=
+  (filter (fun kx => negb (clean_pred m r kx)) l, filter (clean_pred m r) l).
+
+(** ShardedLRU: shard = Sum mod shardNum *)
+Record slru := SLru { sl_n : N; sl_max : N; sl_sh : N -> lru }.
+Definition slru_new (n max : N) : slru := SLru n max (fun _ => []).
+Definition sl_ids (s : slru) : list N := map N.of_nat (seq 0 (N.to_nat (sl_n s))).
+
+Section LruHashed.
+Variable hash : key -> N.
+Definition lix (s : slru) (k : key) : N := hash k mod sl_n s.
+Definition sl_set (s : slru) (i : N) (l : lru) : slru := SLru (sl_n s) (sl_max s) (upd (sl_sh s) i l).
+
+Definition lexec (s : slru) (o : lop) : slru * (lres * list (key * val)) :=
+  match o with
+  | LAdd k v =>
+    let '(l, ev) := ladd (sl_max s) k v (sl_sh s (lix s k)) in (sl_set s (lix s k) l, (LRUnit, ev))
+  | LGet k =>
+    let '(l, r) := lget k (sl_sh s (lix s k)) in (sl_set s (lix s k) l, (LRGet r, []))
+  | LDel k =>
+    let '(l, ev) := ldel k (sl_sh s (lix s k)) in (sl_set s (lix s k) l, (LRUnit, ev))
+  | LClean m r =>
+    let s' := fold_left (fun a i => sl_set a i (fst (lclean m r (sl_sh a i)))) (sl_ids s) s in
+    let ev := flat_map (fun i => snd (lclean m r (sl_sh s i))) (sl_ids s) in
+    (s', (LRNum (N.of_nat (length ev)), ev))
+  | LLen => (s, (LRNum (fold_left (fun a i => a + N.of_nat (length (sl_sh s i))) (sl_ids s) 0), []))
+  | LFlush => (fold_left (fun a i => sl_set a i []) (sl_ids s) s, (LRUnit, []))
+  end.
+
+Fixpoint lrun_ops (s : slru) (ops : list lop) : slru * list (lres * list (key * val)) :=
+  match ops with
+  | [] => (s, [])
+  | o :: t => let '(s1, r) := lexec s o in let '(s2, rs) := lrun_ops s1 t in (s2, r :: rs)
+  end.
+End LruHashed.
